@@ -131,6 +131,119 @@ def gen_opt(r, n, boxed, kinds=None):
     return kind, "opt %s %s" % (kind, nums([lam, mu, r.below(3), sigma])), pc
 
 
+def optline(kind, lam=0, mu=0, recomb=2, sigma=0.0, **opts):
+    """`opt` line with the configuration options of harness/c11.cpp (None values are left out = the class' default)"""
+    o = " ".join("%s=%s" % (k, v) for k, v in opts.items() if v is not None)
+    return ("opt %s %s %s" % (kind, nums([lam, mu, recomb, sigma]), o)).strip()
+
+
+def popset(r, kind, which):
+    """(lambda, mu, set=) for the four ways to use setLambda / setMu"""
+    if which == "default":
+        return 0, 0, None
+    if which == "both":
+        lam = r.range(4, 14); return lam, r.range(1, lam - 1), None
+    if which == "lambda":        # mu = suggestMu(lambda) (cma: lambda/4 for EQUAL) | lambda/4 (cmsa): lambda >= 4 keeps mu >= 1
+        return r.range(4, 16), 0, "lambda"
+    # default lambda is >= 5 (cma) / 4n (cmsa), also for the dimension of the pre-use problem
+    return 0, r.range(1, 3), "mu"
+
+
+def axis_objective(r, boxes):
+    ops, n, kind, box = gen_objective(r, allow_box=boxes, dims=[1, 2, 2, 3, 3, 4, 5])
+    x0, xc = gen_x0(r, n, box)
+    while xc in ("huge",):
+        x0, xc = gen_x0(r, n, box)
+    return ops, n, box, x0
+
+
+def gen_axis_cases(r, maxsteps):
+    """the cross product of the configuration axes of every strategy's public interface (construction with the global or a
+    private generator x every init overload x which population setters are used x recombination type x options that act after
+    init ...); objective, start, seed, sizes and number of steps are drawn at random for each cell.  Every cell is a `run`
+    case, i.e. it gets all oracles (8 runs)."""
+    out = []
+    def add(objops, oline, x0, steps, cell):
+        out.append((objops + [oline, "run %d %d %s %s" % (r.range(1, 10 ** 6), steps, fb(INF), nums(x0))], cell))
+    RNG = (None, "private")
+    SHORT = (None, "propose", "points")
+    # --- CMA: 2 x (3 x 4 + 3) x 3 x 2 = 180 cells
+    for rng in RNG:
+        for init, extra in [(i, ps) for i in SHORT for ps in ("default", "both", "lambda", "mu")] + [("full", c) for c in (None, "diag", "dense")]:
+            for recomb in (0, 1, 2):
+                for lb in (None, "set"):
+                    ops, n, box, x0 = axis_objective(r, True)
+                    if init == "full":
+                        lam, mu, st = popset(r, "cma", r.choice(["default", "both"])); cov = extra
+                    else:
+                        lam, mu, st = popset(r, "cma", extra); cov = None
+                    lbv = None if lb is None else fb(r.choice([2.0 ** -10, 1.0, 1e-10, 0.0, -1.0, 2.0 ** -4]))
+                    add(ops, optline("cma", lam, mu, recomb, r.choice([0, 0, 0.5, 2.0]), rng=rng, init=init, set=st, cov0=cov, lb=lbv),
+                        x0, r.range(3, maxsteps), "cma:rng=%s,init=%s,pop=%s,lb=%s" % (rng, init, extra, lb))
+    # --- CMSA: 2 x (3 x 4 + 3) x 2 = 60 cells
+    for rng in RNG:
+        for init, extra in [(i, ps) for i in SHORT for ps in ("default", "both", "lambda", "mu")] + [("full", c) for c in (None, "diag", "dense")]:
+            for sg in (0, 1):
+                ops, n, box, x0 = axis_objective(r, True)
+                if init == "full":
+                    lam, mu, st = popset(r, "cmsa", r.choice(["default", "both"])); cov = extra
+                else:
+                    lam, mu, st = popset(r, "cmsa", extra); cov = None
+                add(ops, optline("cmsa", lam, mu, 2, r.choice([0.5, 2.0, 2.0 ** -6]) if sg else 0, rng=rng, init=init, set=st, cov0=cov),
+                    x0, r.range(3, maxsteps), "cmsa:rng=%s,init=%s,pop=%s" % (rng, init, extra))
+    # --- ElitistCMA: 2 x 3 x 3 x 2 x 2 = 72 cells; with a feasibility box acceptance is on the penalized fitness (the harness
+    #     then checks monotonicity of the accepted penalized fitness instead of the reported value, and skips the rescalings)
+    for rng in RNG:
+        for init in SHORT:
+            for active in (None, 0, 1):
+                for sg in (0, 1):
+                    for boxed in (False, True):
+                        ops, n, box, x0 = axis_objective(r, False)
+                        pen = None
+                        if boxed:
+                            lo = [-(r.choice([1, 2, 4]) / r.choice([1, 2])) for _ in range(n)]
+                            hi = [(r.choice([1, 2, 4]) / r.choice([1, 2])) for _ in range(n)]
+                            ops.append("softbox %s %s" % (nums(lo), nums(hi)))
+                            x0 = [lo[i] + (hi[i] - lo[i]) * r.range(0, 8) / 8 for i in range(n)]
+                            pen = r.choice([None, fb(1.0), fb(1e-3), fb(1e6)])
+                        add(ops, optline("ecma", 0, 0, 0, r.choice([0.5, 2.0, 2.0 ** -6]) if sg else 0, rng=rng, init=init, active=active, penalty=pen),
+                            x0, r.range(12, 4 * maxsteps), "ecma:rng=%s,init=%s,active=%s,box=%s" % (rng, init, active, boxed))
+    # --- VD-CMA: 2 x 4 x 3 x 2 = 48 cells
+    for rng in RNG:
+        for init in SHORT + ("full",):
+            for sig in (None, "pre", "post"):
+                for pl in (None, "set"):
+                    ops, n, box, x0 = axis_objective(r, True)
+                    lam, mu = (0, 0)
+                    if init == "full" and r.chance(1, 2):
+                        lam = r.range(4, 14); mu = r.range(1, lam - 1)
+                    add(ops, optline("vdcma", lam, mu, 2, 0 if sig is None else r.choice([0.5, 2.0, 2.0 ** -6]), rng=rng, init=init,
+                                     sig="post" if sig == "post" else None, plambda=None if pl is None else r.range(max(mu + 1, 6), 20)),
+                        x0, r.range(3, maxsteps), "vdcma:rng=%s,init=%s,sigma=%s,plambda=%s" % (rng, init, sig, pl))
+    # --- cross-entropy method (no generator argument: always the global one): 4 x 3 x 3 x 2 = 72 cells
+    for init in SHORT + ("full",):
+        for var in (None, "scalar", "vec"):
+            for noise in (None, "const", "lin"):
+                for post in (None, "set"):
+                    ops, n, box, x0 = axis_objective(r, True)
+                    lam, mu = (0, 0)
+                    if init == "full" and r.chance(2, 3):
+                        lam = r.range(6, 30); mu = r.range(2, lam - 1)
+                    nz = None
+                    if noise == "const": nz = "const:" + fb(r.choice([0.25, 2.0 ** -10, -1.0, 0.0]))
+                    if noise == "lin": nz = "lin:%s:%s" % (fb(r.choice([1.0, 0.5, 0.0])), fb(r.choice([-0.25, -2.0 ** -4, 2.0 ** -6])))
+                    pp = r.range(8, 40) if post else None
+                    add(ops, optline("cem", lam, mu, 0, r.choice([1.0, 4.0, 0.25]) if var else 0, init=init, var=var if var == "vec" or var == "scalar" else None,
+                                     noise=nz, ppop=pp, psel=r.range(2, min(pp - 1, 8)) if post else None),
+                        x0, r.range(3, maxsteps), "cem:init=%s,var=%s,noise=%s,post=%s" % (init, var, noise, post))
+    # --- simplex downhill: the three ways to start
+    for init in SHORT:
+        for _ in range(2):
+            ops, n, box, x0 = axis_objective(r, False)
+            add(ops, ("opt simplex init=%s" % init) if init else "opt simplex", x0, r.range(3, 3 * maxsteps), "simplex:init=%s" % init)
+    return out
+
+
 def gen_run_case(r, maxsteps):
     ops, n, kind, box = gen_objective(r)
     okind, oline, pc = gen_opt(r, n, box is not None)
@@ -198,6 +311,61 @@ def gen_trace_case(r, maxsteps):
     return ops
 
 
+def gen_axis_traces(r, steps):
+    """one-step refinement by the Lean models over the configuration axes that change what the update computes or consumes:
+    activeUpdate on/off (Ecma model), setLowerBound and an initial covariance (CMA model), initial covariance (CMSA model),
+    noise type / variance vector / population sizes changed after init (CEM model), each with both kinds of generator and
+    every init overload"""
+    out = []
+    inits = [None, "propose", "points"]
+    for active in (None, 0, 1):
+        for rng in (None, "private"):
+            ops, n, kind, box = gen_objective(r, allow_box=False)
+            ops.append(optline("ecma", 0, 0, 0, r.choice(SIGMAS), active=active, rng=rng, init=r.choice(inits)))
+            ops.append("ecmatrace %d %d %s" % (r.range(1, 10 ** 6), r.range(8, 3 * steps), nums(gen_x0(r, n, None)[0])))
+            out.append(ops)
+    for lb in (None, 2.0 ** -10, 1.0, 0.0):
+        for init, cov in ((None, None), ("propose", None), ("full", None), ("full", "diag"), ("full", "dense")):
+            ops, n, kind, box = gen_objective(r)
+            lam, mu = (0, 0) if r.chance(1, 2) else (lambda l: (l, r.range(1, l - 1)))(r.range(3, 12))
+            ops.append(optline("cma", lam, mu, r.below(3), r.choice([0, 0.5, 1.0]), init=init, cov0=cov, lb=None if lb is None else fb(lb),
+                               rng=r.choice([None, "private"])))
+            x0, xc = gen_x0(r, n, box)
+            while xc == "huge":
+                x0, xc = gen_x0(r, n, box)
+            ops.append("cmatrace %d %d %s" % (r.range(1, 10 ** 6), r.range(2, steps), nums(x0)))
+            out.append(ops)
+    for rng in (None, "private"):
+        for init, cov in ((None, None), ("points", None), ("full", None), ("full", "diag"), ("full", "dense"), ("full", "scaled")):
+            ops, n, kind, box = gen_objective(r)
+            lam, mu, st = popset(r, "cmsa", r.choice(["default", "both"] if init == "full" else ["default", "both", "lambda", "mu"]))
+            ops.append(optline("cmsa", lam, mu, 2, r.choice([0, 0.5, 2.0]), init=init, cov0=cov, rng=rng, set=st))
+            ops.append("cmsatrace %d %d %s" % (r.range(1, 10 ** 6), r.range(2, steps), nums(gen_x0(r, n, box)[0])))
+            out.append(ops)
+    for noise in (None, "const", "lin"):
+        for var in (None, "scalar", "vec"):
+            for post in (None, "set"):
+                ops, n, kind, box = gen_objective(r, allow_box=False)
+                init = r.choice(inits + ["full"])
+                lam, mu = (0, 0)
+                if init == "full" and r.chance(2, 3):
+                    lam = r.range(6, 30); mu = r.range(2, lam - 1)
+                nz = None
+                if noise == "const": nz = "const:" + fb(r.choice([0.25, 2.0 ** -10, -1.0]))
+                if noise == "lin": nz = "lin:%s:%s" % (fb(r.choice([1.0, 0.5, 0.0])), fb(r.choice([-0.25, -2.0 ** -4, 2.0 ** -6])))
+                pp = r.range(8, 40) if post else None
+                ops.append(optline("cem", lam, mu, 0, r.choice([1.0, 4.0, 0.25]) if var else 0, init=init, var=var, noise=nz, ppop=pp,
+                                   psel=r.range(2, min(pp - 1, 8)) if post else None))
+                ops.append("cemtrace %d %d %s" % (r.range(1, 10 ** 6), r.range(2, steps), nums(gen_x0(r, n, None)[0])))
+                out.append(ops)
+    for init in inits:
+        ops, n, kind, box = gen_objective(r, allow_box=False)
+        ops.append(("opt simplex init=%s" % init) if init else "opt simplex")
+        ops.append("simplexrun %d %s" % (r.range(1, 3 * steps), nums(gen_x0(r, n, None)[0])))
+        out.append(ops)
+    return out
+
+
 def gen_model_traces(r, quick):
     """one-step refinement traces for ElitistCMA, CMSA, CEM and whole deterministic runs of SimplexDownhill"""
     out = []
@@ -237,13 +405,15 @@ def gen_coeff_case(r):
 
 
 def case_info(ops):
-    info = {"opt": "?", "obj": "?", "n": 0, "box": False, "kind": "coeffs", "steps": 0, "lambda": 0}
+    info = {"opt": "?", "obj": "?", "n": 0, "box": False, "kind": "coeffs", "steps": 0, "lambda": 0, "options": {}}
     for o in ops:
         t = o.split()
         if t[0] == "obj": info["obj"], info["n"] = t[1], int(t[2])
         elif t[0] in ("box", "softbox"): info["box"] = True
         elif t[0] == "opt":
             info["opt"] = t[1]
+            info["options"] = dict(x.split("=", 1) for x in t[2:] if "=" in x)
+            t = [x for x in t if "=" not in x]
             if len(t) > 2: info["lambda"] = int(struct.unpack("<d", struct.pack("<Q", int(t[2][1:], 16)))[0])
         elif t[0] == "run": info["kind"], info["steps"] = "run", int(t[2])
         elif t[0] in ("cmatrace", "ecmatrace", "cmsatrace", "cemtrace"):
@@ -428,6 +598,11 @@ def run(ctx):
         cases.append(gen_directed_case(r)); ctx.hist("population_class", "directed-or-high-dim"); ctx.hist("x0_class", "far+small-sigma | n=20,40")
     for _ in range(12 if ctx.quick else 60):
         cases.append(gen_reuse_case(r)); ctx.hist("population_class", "default"); ctx.hist("x0_class", "reuse n>=30")
+    for rep in range(1 if ctx.quick else 4):
+        for ops, cell in gen_axis_cases(r, 12 if ctx.quick else 40):
+            cases.append(ops); ctx.hist("configuration_cell", cell)
+            ctx.hist("population_class", "axis-sweep"); ctx.hist("x0_class", "axis-sweep")
+        cases += gen_axis_traces(r, tsteps if ctx.quick else 30)
     cases += [gen_trace_case(r, tsteps) for _ in range(ntrace)]
     cases += gen_model_traces(r, ctx.quick)
     cases += [gen_conv_case(r, csteps) for _ in range(nconv)]
@@ -435,17 +610,21 @@ def run(ctx):
         i = case_info(c)
         ctx.hist("case_kind", i["kind"]); ctx.hist("optimizer", i["opt"] + ":" + i["kind"])
         ctx.hist("dimension", i["n"])
+        for k, v in i["options"].items():
+            ctx.hist("configuration_axis", "%s:%s=%s" % (i["opt"], k, v if k in ("rng", "init", "set", "cov0", "active", "sig", "var") else ("const" if v.startswith("const") else "lin" if v.startswith("lin") else "set")))
         if i["lambda"]:
             ctx.hist("lambda_over_n", "default" if not i["lambda"] else min(i["lambda"] // max(i["n"], 1), 64) // 4 * 4)
         if i["kind"] != "coeffs":
             ctx.hist("objective", i["obj"] + ("+box" if i["box"] else ""))
             ctx.hist("steps", min(i["steps"] // 20 * 20, 400))
             for o in c:
-                if o.startswith("opt ") and len(o.split()) >= 6:
-                    ctx.hist("initial_sigma", struct.unpack("<d", struct.pack("<Q", int(o.split()[5][1:], 16)))[0])
-                    ctx.hist("recombination", int(struct.unpack("<d", struct.pack("<Q", int(o.split()[4][1:], 16)))[0]))
+                ot = [x for x in o.split() if "=" not in x]
+                if o.startswith("opt ") and len(ot) >= 6:
+                    ctx.hist("initial_sigma", struct.unpack("<d", struct.pack("<Q", int(ot[5][1:], 16)))[0])
+                    ctx.hist("recombination", int(struct.unpack("<d", struct.pack("<Q", int(ot[4][1:], 16)))[0]))
     ctx.cov["evaluations"] = len(cases)
-    ctx.cov["runs_per_run_case"] = "7 (fresh, fresh, re-initialised used object, 3 exact rescalings; same seed)"
+    ctx.cov["runs_per_run_case"] = ("8 (fresh, fresh, re-initialised used object, object used on another problem before, 3 exact rescalings; same seed; "
+                                    "with rng=private the process-global generator is in a different state in every run)")
     ctx.cov["distinct_nontrivial"] = len({"\n".join(c) for c in cases if case_info(c)["kind"] == "coeffs" or case_info(c)["steps"] >= 5})
     ctx.sample({"ops": cases[len(cases) // 2][:4]})
     correspond(ctx, "K-C11", cases, [exe], [drv])
